@@ -700,6 +700,42 @@ func checkEntries(r *Run, rc *RuleCtx, cl *closures) {
 				}
 			})
 		}
+		// an entry that fills Raw from a reader: on every path from the Read to Decode the buffer has been
+		// resliced to exactly the number of bytes read (also when that number is zero)
+		if len(dataParams) == 0 && fn.Name() != "CloneTo" {
+			var rd *ssa.Call
+			eachInstr(fn, func(b *ssa.BasicBlock, i int, in ssa.Instruction) {
+				if c, ok := in.(*ssa.Call); ok && c.Call.IsInvoke() && c.Call.Method.Name() == "Read" {
+					rd = c
+				}
+			})
+			if rd != nil {
+				isCount := func(v ssa.Value) bool {
+					e, ok := stripConvs(v).(*ssa.Extract)
+					return ok && e.Index == 0 && e.Tuple == ssa.Value(rd)
+				}
+				repD := map[ssa.Instruction]bool{}
+				q := &PathQuery{P: p, Fn: fn, From: rd}
+				q.Step = func(in ssa.Instruction, deferred bool, st uint64, c *PathCtx) (uint64, bool) {
+					if s, ok := in.(*ssa.Store); ok {
+						if fa, isFA := s.Addr.(*ssa.FieldAddr); isFA && fieldOfAddr(fa) == rawField {
+							if sl, isSl := s.Val.(*ssa.Slice); isSl && sl.Low == nil && sl.High != nil && isCount(c.Resolve(sl.High)) {
+								return st | 1, false
+							}
+							return st &^ 1, false
+						}
+					}
+					for _, dc := range dcalls {
+						if in == ssa.Instruction(dc) && st&1 == 0 && !repD[in] {
+							repD[in] = true
+							rc.ViolationPath(fn, instrPos(in), "Decode of a buffer not cut to the bytes read", "on this path Raw still has the length it had before the read (for example after reading zero bytes): the previous message is decoded and reported again", c.Witness(fn, in))
+						}
+					}
+					return st, false
+				}
+				q.Run()
+			}
+		}
 		idx := errorResultIndex(fn)
 		if idx < 0 {
 			continue
